@@ -85,6 +85,17 @@ def run_case(case, ctx):
     fx = np.array([float(v) for v in fx_exact])
     dcoefs = poly_deriv(coefs, n)
     args = (list(fx), list(x)) if case['as_list'] else (fx.copy(), x.copy())
+    if case['seed'] % 2:
+        # history: the same grid has already been differentiated in this process with other (n, m), preferably a higher
+        # order on the same stencil width (whatever the library remembers about a stencil must not be served to another order)
+        ctx.count('grid_differentiated_before_with_other_orders')
+        alts = [(n2, m2) for n2 in range(1, 7) for m2 in range(1, 5) if (n2, m2) != (n, m) and n2 // 2 + m2 == mm]
+        alts.sort(key=lambda t: -t[0])
+        for (n2, m2) in alts[:2]:
+            try:
+                fd_derivative(fx.copy(), x.copy(), n=n2, m=m2)
+            except Exception:
+                pass
     try:
         if case['as_list']:
             out = fd_derivative(np.asarray(args[0]), args[1], n=n, m=m)
